@@ -864,6 +864,31 @@ class ProgGen:
             '}']), (ta, tb)
 
 
+def continue_in_do(src):
+    """a `continue` whose innermost enclosing loop is a do-while (the generator puts loop bodies in braces)"""
+    stack = []          # kinds of the open braces: 'do', 'loop' (for/while), 'other'
+    i = 0
+    while i < len(src):
+        if src.startswith('continue', i):
+            for kind in reversed(stack):
+                if kind in ('do', 'loop'):
+                    if kind == 'do':
+                        return True
+                    break
+        if src[i] == '{':
+            head = src[max(0, i - 60):i].rstrip()
+            if head.endswith('do'):
+                stack.append('do')
+            elif re.search(r'(for|while) \([^{}]*\)$', head):
+                stack.append('loop')
+            else:
+                stack.append('other')
+        elif src[i] == '}' and stack:
+            stack.pop()
+        i += 1
+    return False
+
+
 DO_WHILE_CONTINUE_BROKEN = {}
 
 
@@ -928,8 +953,7 @@ def statements(ctx, n):
                         continue
                     if not isinstance(r, OkV):
                         st['ir_ub'] += 1
-                    cls = 'do-while-continue' if (DO_WHILE_CONTINUE_BROKEN.get('v') and
-                                                  re.search(r'do \{[^}]*continue', src)) else None
+                    cls = 'do-while-continue' if (DO_WHILE_CONTINUE_BROKEN.get('v') and continue_in_do(src)) else None
                     ctx.violation({'fn': 'c_to_ir program', 'key': 'program/%s' % cls, 'class': cls, 'target': march,
                                    'source': src,
                                    'args': [a, b], 'expected': e, 'actual': r.v if isinstance(r, OkV) else repr(r),
